@@ -314,6 +314,38 @@ def check_object(res, defs, known=(), replace=True, failed_first=False):
                                                kw.get('returnSignature'),
                                                kw.get('interface'), a, b),
                                     rep, size=len(defs))
+            # a call that names no interface: the proxy built from the XML
+            # and a proxy built from the exporter's own declarations (in the
+            # exporter's order) take the same decision and send the same
+            # call
+            if len(defs) > 1:
+                h2 = StubHandler()
+                declared = O.RemoteDBusObject(
+                    h2, 'org.ex.Dest', '/o', [build_iface(d) for d in defs])
+                names = sorted({n for d in defs for n, a, b in d['methods']})
+                counts = sorted({len(R.split_sig(a)) for d in defs
+                                 for n, a, b in d['methods']})
+                for n in names:
+                    for k2 in counts:
+                        out = []
+                        for hh, pp in ((h, prox), (h2, declared)):
+                            hh.conn.calls = []
+                            try:
+                                pp.callRemote(n, *(['x'] * k2))
+                                kw = hh.conn.calls[0][2]
+                                out.append(('sent', kw.get('interface'),
+                                            kw.get('signature') or ''))
+                            except TypeError:
+                                out.append(('refused',))
+                        if out[0] != out[1]:
+                            res.violation(
+                                '%s/proxy/no-interface' % PROP,
+                                'interfaces %r: %s with %d argument(s) and '
+                                'no interface named: the proxy built from '
+                                'the XML %r, a proxy built from the '
+                                'declarations %r'
+                                % ([d['name'] for d in defs], n, k2, out[0],
+                                   out[1]), rep, size=len(defs))
         except Exception as e:
             res.violation('%s/proxy/raises-%s' % (PROP, type(e).__name__),
                           'building/using a proxy over the parsed interfaces '
